@@ -116,6 +116,10 @@ def run(ctx):
     # encode() sizes its work by len(<dense row>) and then walks the row: a row view whose len is smaller than what it iterates loses its trailing features silently
     from . import c13
     c13.r19_len_iter_agreement(ctx, rule="C20.R9")
+    # the rows handed to encode() answer the same whatever was encoded before them, and are empty exactly when they hold nothing
+    ctx.rule("C20.R10", "C13.R4 for the rows handed to encode(): accessors of row views mutate nothing the view (or its sibling rows) shares, also not through a local alias")
+    c13.r4_purity(ctx, rule="C20.R10")
+    c13.r20_truthiness(ctx, rule="C20.R11")
 
 
 def r1_key_domain(ctx):
@@ -433,7 +437,14 @@ def _memo_iter(tree):
     si.body.insert(len(si.body) - 1, ast.parse("if key not in self._values: self._sorted = None").body[0])
 
 
+def c13_add_method(tree):
+    from . import c13
+    return c13._add_method(tree, "Dense_", "def __bool__(self):\n    return bool(self._row)")
+
+
 CONTROLS = [
+    ("EncodeSparse.items shrinks the shared default set", "coba/pipes/rows.py", M.replace_stmt("EncodeSparse.items", M.text_has("t2 ="), "nsp = self._nsp\nnsp -= self._row.keys()\nt2 = tuple(((k, self._enc[k]('0')) for k in nsp))"), "C20.R10"),
+    ("Dense_ is falsy when what it wraps is", "coba/primitives.py", lambda tree: c13_add_method(tree), "C20.R11"),
     ("HeadDense measures its header map", "coba/pipes/rows.py", M.replace_expr("HeadDense.__len__", "len(self._row)", "len(self.headers)"), "C20.R9"),
     ("a string of terms is split into characters", "coba/environments/synthetics.py", M.replace_expr("LinearSyntheticSimulation.__init__", "[reward_features]", "list(reward_features)"), "C20.R8"),
     ("LinUCB strips x terms only for None", "coba/learners/linucb.py", M.replace_expr("LinUCBLearner._initialize", "not context", "context is None"), "C20.R8"),
